@@ -448,4 +448,6 @@ def run(run: Run):
     run.floor('C11.R5', 1)
     from .common import shared_mechanisms as _shared
     _shared(run, 'C11', 12, ['lexer', 'literals'])
+    from .common import shared_mechanisms as _shared_f
+    _shared_f(run, 'C11', 14, ['formulas'])
     return INFO
